@@ -259,8 +259,8 @@ impl Harness for SerdeCheck {
     }
     fn cases(&self, tier: Tier) -> u64 {
         match tier {
-            Tier::Quick => 40_000,
-            Tier::Thorough => 2_000_000,
+            Tier::Quick => 200_000,
+            Tier::Thorough => 10_000_000,
         }
     }
     fn gen(&self, rng: &mut Rng, _tier: Tier) -> SerdeCase {
@@ -904,8 +904,8 @@ impl Harness for ExportCheck {
     }
     fn cases(&self, tier: Tier) -> u64 {
         match tier {
-            Tier::Quick => 40_000,
-            Tier::Thorough => 2_000_000,
+            Tier::Quick => 200_000,
+            Tier::Thorough => 10_000_000,
         }
     }
     fn gen(&self, rng: &mut Rng, _tier: Tier) -> ExportCase {
